@@ -42,6 +42,7 @@ Section C09.
     target_pos a (cs_to c) from = Ok tp -> valid_shift from tp = true ->
     dhas dim (dims t) = true -> lookupP tp (ax_coords a) = Some newdim ->
     dhas newdim (dims t) = false ->
+    words_known (complete_kwargs g (@ax_boundary A) (cs_boundary c)) = true ->
     (forall lo hi (t' : tensor A),
         resolve_one (zero o) g (dnames (dims t'))
                     (complete_kwargs g (@ax_boundary A) (cs_boundary c))
